@@ -120,8 +120,8 @@ func (dc *TraditionalDnsConn) exchange(ctx context.Context, q []byte) (*[]byte, 
 	// If a query was sent, server should have a reply (even not for this query) in a short time.
 	// This indicates the connection is healthy. Otherwise, this connection might be dead.
 	// The Read deadline will be refreshed in DnsConn.readLoop() after every successful read.
-	// Note: There has a race condition in this SetReadDeadline() call and the one in
-	// readLoop(). It's not a big problem.
+	// Note: This SetReadDeadline() call races with the one in readLoop(); readLoop()
+	// checks waitingResp after its own call and re-arms this deadline if needed.
 	if dc.waitingResp.CompareAndSwap(false, true) {
 		dc.c.SetReadDeadline(time.Now().Add(waitingReplyTimeout))
 	}
@@ -192,6 +192,12 @@ func (dc *TraditionalDnsConn) readLoop() {
 
 	for {
 		dc.c.SetReadDeadline(time.Now().Add(dc.idleTimeout))
+		// An exchange may have sent a query and armed the (shorter) waiting deadline
+		// concurrently with the call above, which then overwrote it. Re-arm it:
+		// a query is waiting for a reply, the idle timeout must not apply.
+		if dc.waitingResp.Load() {
+			dc.c.SetReadDeadline(time.Now().Add(waitingReplyTimeout))
+		}
 		r, err := dc.readResp()
 		if err != nil {
 			dc.CloseWithErr(fmt.Errorf("read err, %w", err)) // abort this connection.
